@@ -262,7 +262,7 @@ def render : Except Err (Value Float) → String
   | .ok (.num n) => "ok num " ++ numTok n
   | .ok (.bool b) => "ok bool " ++ (if b then "1" else "0")
 
-def allMask : Nat := 32767
+def allMask : Nat := 65535
 
 /-- the expression of an `eval` / `find` request: THE TEXT, parsed by the model of libyang's parser; when the request also
 carries the pre-parsed prefix form (`ast-hex` other than `-`), both routes must give the same tree -/
